@@ -119,11 +119,34 @@ class line_tracer:
     With ``raise_at=n`` the n-th event (0-based) raises SimulatedInterrupt in
     the traced frame.  ``sites`` collects the distinct file:line seen."""
 
+    _WITH_LINES = {}
+
     def __init__(self, raise_at=None, collect_sites=False):
         self.raise_at = raise_at
         self.count = 0
         self.fired_site = None
         self.sites = set() if collect_sites else None
+
+    @classmethod
+    def _with_lines(cls, code):
+        """Line numbers of ``with`` headers of a code object.  CPython never
+        delivers an asynchronous exception between ``__enter__`` and the
+        protected block, nor between the block and ``__exit__``; both points
+        are attributed to the ``with`` line, so the injector must not raise
+        on a line event of such a line (it would model a crash that cannot
+        happen and leak the context manager)."""
+        lines = cls._WITH_LINES.get(code)
+        if lines is None:
+            import dis
+            lines = set()
+            for ins in dis.get_instructions(code):
+                if ins.opname in ('BEFORE_WITH', 'BEFORE_ASYNC_WITH',
+                                  'WITH_EXCEPT_START', 'SETUP_WITH'):
+                    ln = ins.positions.lineno if ins.positions else None
+                    if ln is not None:
+                        lines.add(ln)
+            cls._WITH_LINES[code] = lines
+        return lines
 
     def _global(self, frame, event, arg):
         if event == 'call' and frame.f_code.co_filename.startswith(env.PKG_DIR):
@@ -138,7 +161,8 @@ class line_tracer:
                 self.sites.add(
                     (frame.f_code.co_filename[len(env.REPO) + 1:],
                      frame.f_lineno))
-            if n == self.raise_at:
+            if self.raise_at is not None and n >= self.raise_at \
+                    and frame.f_lineno not in self._with_lines(frame.f_code):
                 self.fired_site = (
                     f'{frame.f_code.co_filename[len(env.REPO) + 1:]}'
                     f':{frame.f_lineno}')
